@@ -50,7 +50,7 @@ CLAIMED = {
         note="Trusted: Lean kernel + 3 axioms; fault injection points are the verif hooks (Store.Fetch/Store/BatchStore entry, after-store, signRoot); handler-level mapping is covered by C20's wire engine.",
         ref="DESIGN.md §6 C06"),
     "C07": dict(
-        technique="Lean 4 refinement theorem (Check == specification firstBearing for every accepted configuration and request, incl. a verified derivative regex matcher and the anchoring lemma) + differential correspondence against checker/static + Lean-spec judge",
+        technique="Lean 4 refinement theorem (Check == specification firstBearing for every accepted configuration and request, incl. a verified derivative regex matcher and the anchoring lemma) + regexify/Check kernels regenerated from the Go source and proved equal to the model + differential correspondence against checker/static + Lean-spec judge",
         text="Theorem C07_check_refines_spec (Dirk/Props/C07Refine.lean): for every configuration checker/static accepts and every client, account and "
              "operation, Check answers exactly Spec.firstBearing (entries in order, whole-name case-insensitive matching, first bearing item decides, default "
              "deny); it rests on Re.matchFrom_iff / Re.search_anchored (the derivative matcher is correct w.r.t. a positional semantics and a search for "
@@ -130,7 +130,7 @@ CLAIMED = {
         note="Assumed: a blocked Mutex.Lock proceeds once the mutex is free.",
         ref="DESIGN.md §6 C15"),
     "C12": dict(
-        technique="Lean 4 + Mathlib theorems over an arbitrary field/module (Feldman VSS consistency, Lagrange recovery, fewer-than-t failure, order independence, parameter bounds) + protocol model + differential dkg engine over real process instances + Lean-driver Lagrange recovery over Z_r from extracted shares",
+        technique="Lean 4 + Mathlib theorems over an arbitrary field/module (Feldman VSS consistency, Lagrange recovery, fewer-than-t failure, order independence, parameter bounds) + parameter-check kernel regenerated from the Go source + protocol model + differential dkg engine over real process instances + Lean-driver Lagrange recovery over Z_r from extracted shares",
         text="Partial (crypto library assumed). Theorems C12_share_consistent, C12_same_key, C12_recover (any t ids recover the group "
              "secret applied to any point), C12_fewer_fail, C12_bounds (accepted iff 1<=n, n<2t, t<=n with the code's integer "
              "division), C12_protocol_success, C12_generation_succeeds (message-level cluster model: on a fresh cluster every Prepare, "
@@ -142,7 +142,7 @@ CLAIMED = {
         note="Assumed: herumi BLS (field/group laws, hash-to-curve, Recover), CSPRNG. Real gRPC between daemons is unavailable in the sandbox (peer names do not resolve); messages pass the real receiver handlers after a protobuf round trip.",
         ref="DESIGN.md §6 C12", engine="lean+dkg"),
     "C13": dict(
-        technique="Lean 4 theorems on the message-level cluster model (rejected contributions store nothing, only a successful commit creates an account, aggregation in range) + complete enumeration of fault kinds x message positions on real instances",
+        technique="Lean 4 theorems on the message-level cluster model (rejected contributions store nothing, only a successful commit creates an account, aggregation in range) + acceptance kernel of OnContribute regenerated from the Go source + complete enumeration of fault kinds x message positions on real instances",
         text="Theorems C13_reject, C13_accounts_only_by_commit, C13_no_account, C13_no_crash, C13_legacy_counterexample. Tie: for small "
              "(n,t) every fault kind (lost, error reply, share replaced, commitment altered, vector short/long/long-with-neutral-entry, "
              "altered reply share/vector, duplicate) at every prepare/execute/contribute position through the routing sender: the "
